@@ -116,6 +116,18 @@ REG['C12'] = dict(
          'FakeIntersectionParameter is ignored by the code (intersect() always uses its default 0.1).',
     technique='Lean 4 proof (termination by fuel bound; permutation invariants) + differential correspondence',
     ref='§5-C12')
+REG['C08'] = dict(
+    text='Lean 4 theorems over the PageDecoder state machine (decode_line with confident-line shortcut, re-priming from the last line, '
+         'LM state carry-over; the decoder itself a pure function by C02/C03): the output of a page is independent of the state the '
+         'instance is in, hence of ANY processing history (subsets, orders, repetitions); a run is page-wise; processing a page twice '
+         'gives identical output; any partition of the pages among fresh workers gives the sequential result. Whether process_page '
+         'resets last_line is REGENERATED from the source each run. Correspondence: the real PageDecoder driven with a symbolic '
+         'decoder/LM whose outputs encode their inputs vs the Lean model (exact); oracle with the real prefix decoder + toy LM; '
+         'parse_folder --process-count 1 vs 2 on the model-free stage.',
+    note='Trusted: multiprocessing.Pool.starmap (each task once, results in order); hidden state inside a real torch LM; the decoder '
+         'call is stateless (proved for the model decoder in C02/C03, exercised on the real one).',
+    technique='Lean 4 proof (state-independence of processPage) over a model with a generated flag + differential correspondence',
+    ref='§5-C08')
 REG['C09'] = dict(
     text='Lean 4 theorems over a model of _gen_logits / load_logits (one insertion-ordered dict with the two reserved keys): for '
          'distinct, non-reserved line ids loading a saved page restores for every line exactly the saved logits, characters and '
